@@ -70,6 +70,8 @@ type Engine struct {
 	inlineCount int
 	usedLemmas  map[string]bool
 	rawIface    bool
+	modsCallee  *ssa.Function
+	globalFuncs map[*ssa.Global]*ssa.Function
 	allRefs   map[string]bool
 	refDeps   map[string][]string
 	privTypes map[string]types.Type
